@@ -299,7 +299,26 @@ func (b *binder) bind(prefix, value string) string {
 	return n
 }
 
-func (b *binder) S(s string) string { return b.bind("s", Str(s)) }
+// strLit prints a Gallina string literal; unlike common.Str it keeps a line feed (a Coq string
+// literal may span lines), which some generated account names contain.
+func strLit(s string) string {
+	var sb strings.Builder
+	sb.WriteByte('"')
+	for _, c := range []byte(s) {
+		switch {
+		case c == '"':
+			sb.WriteString(`""`)
+		case c == '\n' || (c >= 32 && c < 127):
+			sb.WriteByte(c)
+		default:
+			sb.WriteByte('?')
+		}
+	}
+	sb.WriteString(`"%string`)
+	return sb.String()
+}
+
+func (b *binder) S(s string) string { return b.bind("s", strLit(s)) }
 
 func (b *binder) Num(x uint64) string {
 	switch {
@@ -428,6 +447,9 @@ func tagsOf(in Input) []string {
 			if i < 2 && hasTopLevelAlternation(p) {
 				add("alternation")
 			}
+			if i < 2 && endsWithEscapedDollar(p) {
+				add("escaped-dollar")
+			}
 		}
 		if strings.ContainsAny(s, "^$") {
 			add("anchors")
@@ -461,6 +483,22 @@ func tagsOf(in Input) []string {
 	return tags
 }
 
+// traceSafe: trace logging may be switched on for this input.  Before repository commit "fix: log
+// the wallets being refreshed once ..." the wallet manager, at trace level with two or more
+// wallets, reused a zerolog event after Msg had recycled it, which corrupts zerolog's event pool
+// for the whole process (random panics in later, unrelated log calls).  That defect is not C13's
+// subject, so the harness keeps away from it.
+func traceSafe(in Input) bool {
+	if in.Manager != "wallet" {
+		return true
+	}
+	first := map[string]bool{}
+	for _, s := range in.Specs {
+		first[firstPart(s)] = true
+	}
+	return len(first) <= 1
+}
+
 func TestC13(t *testing.T) {
 	zerologger.Logger = zerologger.Output(io.Discard)
 	col := NewCollector("C13", "Check.C13",
@@ -476,7 +514,7 @@ func TestC13(t *testing.T) {
 	thorough := strings.HasPrefix(strings.ToLower(getenv("VERIF_TIER")), "thorough") || getenv("VERIF_SEARCH") != ""
 	for i := 0; i < n; i++ {
 		in := gen(rng.Fork())
-		if thorough && i%2 == 1 {
+		if thorough && i%2 == 1 && traceSafe(in) {
 			in.Trace = true
 		}
 		ins = append(ins, in)
